@@ -381,7 +381,13 @@ class WRec:
                                     ent = W.ent(a[0]) if a else -1
                                     ok = len(a) > 1 and a[1] is W.world
                                     W.log.append([ev_name, W.comps.get(id(self_), '?'), ent] + ([] if ok else ['WRONGWORLD']))
-                            return f(self_, *a, **kw)
+                            if ev_name != 'process':
+                                return f(self_, *a, **kw)
+                            try:
+                                return f(self_, *a, **kw)
+                            except BaseException:
+                                W.proc_raised = W.procs.get(id(self_), '?')     # a processor body raised (Quit, SwitchWorld, ...)
+                                raise
                         wrapper._verif_w = ev_name
                         return wrapper
                     setattr(k, meth, make(f, ev_name))
@@ -434,6 +440,7 @@ def _wcall(op, a1, a2, a3, w, call, ret_of=None):
         finally:
             W.depth -= 1
     W.log = []
+    W.proc_raised = None
     ret = ['ok', 0, '-']
     W.depth += 1
     try:
@@ -446,6 +453,10 @@ def _wcall(op, a1, a2, a3, w, call, ret_of=None):
         raise
     finally:
         W.depth -= 1
+        if (op == 'Process' and ret[0] != 'ok' and W.proc_raised is not None and W.log
+                and W.log[-1][:2] == ['process', W.proc_raised]):
+            # the exception came out of a processor body: World.tla's ProcessProcFault(dt, p)
+            op, a2, ret = 'ProcessProcFault', W.proc_raised, ['raised', 0, '-']
         ev = {'op': op, 'a1': a1, 'a2': a2, 'a3': a3, 'ret': ret, 'log': [list(x) for x in W.log]}
         try:
             ev.update(_wobserve(w))
